@@ -8,6 +8,9 @@ cfg: acks, max_attempts, retry_interval ("p/q"), batch_send, n, b, t ("p/q" | No
      ("rr" | "hashed"), codec (0 | 1), api_versions (0 | 1)
 events:
   ["send", sid, topic, key_hex | None, [size | None, ...]]
+  ["sendh", sid, topic, key_hex | None, [size | None, ...], hook]   a send whose Deferred gets a callback that calls
+        back into the Producer (re-entrancy): hook = [["s", topic, key, sizes] | ["c", sid] | ["x"], ...]
+        (send_messages / cancel of send `sid` / stop(); the ids of sends made by hooks are the next free ones)
   ["cancel", sid]
   ["advance", "p/q"]
   ["metaset", topic, errno, [partition, ...] | None]
@@ -146,6 +149,21 @@ def cfg_line(cfg):
         cfg["n"], cfg["b"], cfg["t"] if cfg["t"] is not None else "-", cfg["partitioner"])
 
 
+def hook_str(hook):
+    out = []
+    for a in hook:
+        if a[0] == "s":
+            k = "N" if a[2] is None else (a[2] or "-")
+            out.append("s@%d@%s@%s" % (a[1], k, ",".join("n" if x is None else str(x) for x in a[3]) or "-"))
+        elif a[0] == "c":
+            out.append("c@%d" % a[1])
+        elif a[0] == "x":
+            out.append("x@0@-@-")
+        else:
+            raise ValueError(a)
+    return "|".join(out) or "-"
+
+
 def event_line(ev):
     op = ev[0]
     if op == "send":
@@ -153,6 +171,11 @@ def event_line(ev):
         k = "N" if key is None else (key or "-")
         m = ",".join("n" if s is None else str(s) for s in msgs) or "-"
         return "send %d %d %s %s" % (sid, topic, k, m)
+    if op == "sendh":
+        _, sid, topic, key, msgs, hook = ev
+        k = "N" if key is None else (key or "-")
+        m = ",".join("n" if s is None else str(s) for s in msgs) or "-"
+        return "sendh %d %d %s %s %s" % (sid, topic, k, m, hook_str(hook))
     if op == "cancel":
         return "cancel %d" % ev[1]
     if op == "advance":
@@ -198,6 +221,12 @@ class RealRun(object):
         self.settled = set()  # sids that cannot be in a later payload (see segment)
         self.steps = []
         self.stopped_d = None
+        self.next_sid = 0  # send_messages calls so far (the model's nextSid)
+        self.hook_sids = {}  # step index -> sids of sends made by hooks in that step
+        self.tx_after_stop = None  # a transmission observed after a stop() made by a hook returned
+        self._stop_returned = False
+        self.sent_payloads = []
+        self.success_never_sent = None  # ground truth: a send Deferred succeeded although no request ever carried it
         self.producer = P.Producer(self.client, **kw)
         self.init_obs = self._drain()
         self.client.reactor.after_call = self._after_timer
@@ -247,6 +276,8 @@ class RealRun(object):
 
     def _ob_line(self, ob):
         k = ob[0]
+        if k in ("loadmeta", "produce") and self._stop_returned and self.tx_after_stop is None:
+            self.tx_after_stop = "%s %d after stop() returned" % (k, ob[1])
         if k == "loadmeta":
             return "loadmeta %d %s" % (ob[1], ",".join(str(topic_index(t)) for t in ob[2]))
         if k == "produce":
@@ -256,12 +287,19 @@ class RealRun(object):
                 t = topic_index(p.topic)
                 sids = self.segment(t, payload_messages(p), used)
                 used.update(sids or [])
+                self.sent_payloads.append((t, payload_messages(p)))
                 ps.append("%d/%d=%s" % (t, p.partition, "?" if sids is None else ",".join(str(s) for s in sids)))
             extra = "" if (acks == self.cfg["acks"] and foe is False and timeout == self.producer.ack_timeout) else " BADARGS"
             return "produce %d %s%s" % (rid, ";".join(ps) or "-", extra)
         if k == "cancelreq":
             return "cancelreq %d" % ob[1]
         if k == "fire":
+            if ob[2].startswith("ok") and self.success_never_sent is None and ob[1] in self.sends:
+                t, key, vals = self.sends[ob[1]]
+                want = [(key, v) for v in vals]
+                if not any(pt == t and any(msgs[i:i + len(want)] == want for i in range(len(msgs) - len(want) + 1))
+                           for pt, msgs in self.sent_payloads):
+                    self.success_never_sent = "send %d succeeded (%s) but no produce request ever carried its messages" % (ob[1], ob[2])
             if ob[2] != "err ac1":
                 self.settled.add(ob[1])
             return "fire %d %s" % (ob[1], ob[2])
@@ -273,6 +311,15 @@ class RealRun(object):
             return "stoplooper" if ob[1] == "L" else "canceltimer %d" % ob[1]
         if k == "resetmeta":
             return "resetmeta %s" % ",".join(str(topic_index(t)) for t in ob[1])
+        if k == "hookbegin":
+            return "hookbegin %d" % ob[1]
+        if k == "hookend":
+            return "hookend"
+        if k == "hookbadop":
+            return "badop"
+        if k == "stopreturned":
+            self._stop_returned = True
+            return None  # harness-only marker (ground truth for "nothing is transmitted after stop() returned")
         raise ValueError(ob)
 
     def _drain(self):
@@ -323,15 +370,11 @@ class RealRun(object):
         c = self.client
         with warnings.catch_warnings():
             warnings.simplefilter("ignore")
-            if op == "send":
-                _, sid, topic, key, msgs = ev
-                kb = None if key is None else bytes.fromhex(key)
-                vals = [msg_value(sid, i, s) for i, s in enumerate(msgs)]
-                self.sends[sid] = (topic, kb, vals)
-                d = self.producer.send_messages(topic_name(topic), key=kb, msgs=vals)
-                self.dmap[id(d)] = sid
-                self.deferreds[sid] = d
-                d.addCallbacks(self._fire_cb, self._fire_cb, callbackArgs=(sid, True), errbackArgs=(sid, False))
+            if op in ("send", "sendh"):
+                sid, topic, key, msgs = ev[1:5]
+                d = self._send(sid, topic, key, msgs)
+                if op == "sendh":
+                    d.addBoth(self._run_hook, sid, ev[5])
                 self._push(event_line(ev), move_fire_of=sid)
             elif op == "cancel":
                 self.deferreds[ev[1]].cancel()
@@ -362,6 +405,7 @@ class RealRun(object):
                 self._push(event_line(ev))
             elif op == "stop":
                 _, wipe, outs = ev
+                self._stop_event = True
                 c.wipe_on_cancel = bool(wipe)
                 c.cancel_outcomes = {}
                 pout, mouts = "-", []
@@ -378,9 +422,48 @@ class RealRun(object):
                         pout = "%d:%s" % (rid, result_str(out).replace(" ", "~"))
                 self.stopped_d = self.producer.stop()
                 c.cancel_outcomes = {}
+                self.log.append(("stopreturned",))
                 self._push("stop %d %s %s" % (1 if wipe else 0, pout, ",".join(mouts) or "-"))
             else:
                 raise ValueError(ev)
+
+    def _send(self, sid, topic, key, msgs):
+        kb = None if key is None else bytes.fromhex(key)
+        vals = [msg_value(sid, i, s) for i, s in enumerate(msgs)]
+        self.sends[sid] = (topic, kb, vals)
+        self.next_sid += 1
+        d = self.producer.send_messages(topic_name(topic), key=kb, msgs=vals)
+        self.dmap[id(d)] = sid
+        self.deferreds[sid] = d
+        d.addCallbacks(self._fire_cb, self._fire_cb, callbackArgs=(sid, True), errbackArgs=(sid, False))
+        return d
+
+    def _run_hook(self, _result, sid, hook):
+        """the callback of a hooked send: calls back into the Producer, from wherever its Deferred fired"""
+        self.log.append(("hookbegin", sid))
+        for a in hook:
+            if a[0] == "s":
+                new = self.next_sid
+                self.hook_sids.setdefault(len(self.steps), []).append(new)
+                self._send(new, a[1], a[2], a[3])
+            elif a[0] == "c":
+                if a[1] in self.deferreds:
+                    self.deferreds[a[1]].cancel()
+                else:
+                    self.log.append(("hookbadop",))
+            elif a[0] == "x":
+                self.client.cancel_outcomes = {}
+                lp = self.producer._sendLooper
+                was_running = lp is not None and lp.running
+                mark = len(self.log)
+                self.producer.stop()
+                if was_running and ("canceltimer", "L") not in self.log[mark:]:
+                    # stop() from inside the looping call's own call: LoopingCall.stop() has no timer to cancel
+                    # (it just does not reschedule); the chain is executing, so nothing precedes it in stop()
+                    self.log.insert(mark, ("canceltimer", "L"))
+                self.log.append(("stopreturned",))
+        self.log.append(("hookend",))
+        return None
 
     def _complete_produce(self, rid, res, fire, fail):
         import afkak.common as C
@@ -489,14 +572,20 @@ def diff(real, answers):
     model's choice of sids, so that the monitors see one naming)."""
     got = answers[2:]
     moved = getattr(real, "moved", {})
+    hook_sids = getattr(real, "hook_sids", {})
     for i, ((line, obs, st), g) in enumerate(zip(real.steps, got)):
-        if line.startswith("send ") or i in moved:
-            # the harness attaches its callback to a send's Deferred when `send_messages` has returned: a firing
-            # of that Deferred inside the call is observed last
-            sid = int(line.split(" ")[1]) if line.startswith("send ") else moved[i]
-            tag = "fire %d " % sid
-            body = g[:-1]
-            g = [o for o in body if not o.startswith(tag)] + [o for o in body if o.startswith(tag)] + g[-1:]
+        # The harness attaches its callback to a send's Deferred when `send_messages` has returned: a firing of that
+        # Deferred inside the call (the send of this step, sends made by hooks in this step) is observed late.
+        # Such firings are compared apart from the rest of the step.
+        special = list(hook_sids.get(i, []))
+        if line.startswith("send ") or line.startswith("sendh "):
+            special.append(int(line.split(" ")[1]))
+        elif i in moved:
+            special.append(moved[i])
+        if special:
+            tags = tuple("fire %d " % x for x in special)
+            obs[:] = [o for o in obs if not o.startswith(tags)] + sorted(o for o in obs if o.startswith(tags))
+            g = [o for o in g[:-1] if not o.startswith(tags)] + sorted(o for o in g[:-1] if o.startswith(tags)) + g[-1:]
         want = obs + [st]
         if len(want) != len(g):
             return (i, want, g)
